@@ -302,7 +302,8 @@ def mon_c10(tr):
     exc = tr.get("exc") or tr.get("construct_exc")
     if exc is None:
         return ("fault-swallowed", f"fault {kind} at call {k}: optimize() returned normally")
-    want = {"raise": "TargetFault", "raise_key": "KeyError", "raise_stop": "StopIteration", "raise_index": "IndexError"}.get(kind, "ValueError")
+    want = {"raise": "TargetFault", "raise_key": "KeyError", "raise_stop": "StopIteration", "raise_index": "IndexError",
+            "raise_noargs": "NotImplementedError", "raise_valsub": "LinAlgError"}.get(kind, "ValueError")
     if exc[0] != want:
         return ("exception-type", f"fault {kind} at call {k}: {exc[0]} ({exc[1][:80]}) propagated instead of {want}")
     if len(tr["calls"]) != k:
